@@ -6,6 +6,8 @@ import c02
 
 CONFIGS = ['prod']
 EXPLANATION = (
+    'M6.SEM: the selector actor the watcher awaits before publishing each delta, interpreted end to end (the same summary as C15.N1.SEM): it serves every later update and request also after a reply could not be delivered because its requester went away. '
+    'M5: the membership record is a plain carrier — ClusterMember::new stores id, address and data centre exactly as given (the selector filters the local node by comparing addresses, the consumers key their peers by id). '
     'SEM (abstract interpretation of the MIR, no code runs): the node\'s membership watcher, found by role, is interpreted over a scripted history of nine '
     'snapshots (joins, a leave, an address change, an unchanged snapshot, everybody leaving, a rejoin under another address, a node replaced by a new id on the same address, '
     'another join, a node leaving while another moves onto its address) and each published delta must be '
@@ -482,6 +484,12 @@ def body_reads_field(facts, body, fname):
 
 def check(ctx):
     facts = ctx.facts('prod')
+    import carrier_abs
+    carrier_abs.check_member_constructor(ctx, facts, 'C16.M5')
+    # M6: the watcher awaits the selector actor (`set_nodes`) before it publishes each delta: the actor interpreted end to end — in
+    # particular it outlives a requester that went away (selactor_abs).  Only the summary is run here; its structural fallback is C15's.
+    import selactor_abs
+    selactor_abs.check_selector_actor(ctx, facts, 'C16.M6.SEM')
     if DELTA not in facts.adts:
         ctx.bad('C16.M1', 'delta-type', '', 'MembershipChange ADT not found (fail closed)')
         return
